@@ -292,6 +292,9 @@ def run(tier, replay=None):
     entry.check_separators(prog, rep, [('ExtensionsMap::from_bytes', f, set(disp)) for f in entry.find_method(prog, 'unic_locale_impl', 'ExtensionsMap', 'from_bytes')] +
                            [('parse_locale', f, set(core) | set(disp)) for f in entry.find_fn(prog, 'unic_locale_impl', 'parse_locale')] +
                            [('LanguageIdentifier::from_bytes', f, core) for f in entry.find_method(prog, 'unic_langid_impl', 'LanguageIdentifier', 'from_bytes')])
+    # values built by the compile-time macros belong to this property's domain as well: the macro witnesses of C16 (cached per tree)
+    from . import c16
+    c16.witness_family(rep, tier)
     rep.explanation = ('Round-trip equality is not executed. Decided: the printers are their grammars (emission automata) and the parsers are their tables (per-state transition tables from MIR); '
                        'every sentence of the printer grammars - all optional parts, lists unrolled 0..2, every extension followed by every extension the printer can put after it - is re-read by the '
                        'tables into the slot each subtag was printed from (this is where the order t,u,x, the positional disjointness of script/region/variant, key/attribute/type, tkey/tvalue/region, '
